@@ -559,10 +559,11 @@ static void storm_case(uint64_t i)
     close(fds[0]); free(pay);
     mc_nontrivial(); mc_outcome(100 + i);
 }
-enum { HE_EIO0, HE_EIO1, HE_EIO2, HE_EIO3, HE_DIR, HE_WRONLY, NHE };
+enum { HE_EIO0, HE_EIO1, HE_EIO2, HE_EIO3, HE_DIR, HE_WRONLY, HE_FP_WRONLY, HE_FP_WRONLY_DONE, NHE };
 static void he_desc(uint64_t idx, void *ctx, char *b, size_t n)
 {
-    static const char *w[NHE] = { "read() fails with EIO at once", "EIO on the 2nd read()", "EIO on the 3rd read()", "EIO on the 4th read()", "the descriptor is a directory (EISDIR)", "the descriptor is write-only (EBADF)" };
+    static const char *w[NHE] = { "read() fails with EIO at once", "EIO on the 2nd read()", "EIO on the 3rd read()", "EIO on the 4th read()", "the descriptor is a directory (EISDIR)", "the descriptor is write-only (EBADF)",
+                                  "the source is a FILE on a write-only descriptor of a 16-byte file (init_from_fp: the size is known, the read fails)", "the same, followed by done() before the object is used again" };
     (void) ctx; snprintf(b, n, CLS " new_from_ptr(\"seed\",4), done(), init_from_fd() on a 9000-byte pipe where %s; then append, then del", w[idx % NHE]);
 }
 static void he_case(uint64_t idx, void *ctx)
@@ -574,12 +575,19 @@ static void he_case(uint64_t idx, void *ctx)
     if (he <= HE_EIO3) { if (!queue_stream(0, pay, 9000, fds)) { free(pay); return; } fd = fds[0]; }
     else if (he == HE_DIR) fd = open("/", O_RDONLY);
     else { const char *td = getenv("VERIF_SCRATCH"); char path[256]; snprintf(path, sizeof path, "%s/wo-%d", td ? td : "/tmp", (int) getpid()); fd = open(path, O_WRONLY | O_CREAT, 0600); unlink(path); }
+    FILE *wfp = NULL;
+    if (he >= HE_FP_WRONLY) { const char *td = getenv("VERIF_SCRATCH"); char path[256]; snprintf(path, sizeof path, "%s/wofp-%d", td ? td : "/tmp", (int) getpid());
+        fd = open(path, O_RDWR | O_CREAT, 0600); if (fd >= 0 && write(fd, "0123456789abcdef", 16) == 16) { close(fd); fd = open(path, O_WRONLY); } unlink(path); if (fd >= 0) { lseek(fd, 0, SEEK_SET); wfp = fdopen(fd, "w"); } site = CLS "_init_from_fp"; }
     T o = F(new_from_ptr)((spif_byteptr_t) "seed", 4);
     F(done)(o);
+    if (he >= HE_FP_WRONLY) {
+        if (wfp) { (void) F(init_from_fp)(o, wfp); if (he == HE_FP_WRONLY_DONE) F(done)(o); }
+    } else {
     g_hook_fd = fd; g_eio_at = he <= HE_EIO3 ? he : -1; g_eio_seen = 0;
     spif_bool_t r = F(init_from_fd)(o, fd);
     g_hook_fd = -1; g_eio_at = -1;
     (void) r;
+    }
     if (!o->buff) { if (o->len || o->size) FAIL(site, "invariant:empty-state", shape, "buffer pointer NULL with len=%ld size=%ld", (long) o->len, (long) o->size); }
     else if (o->len < 0 || o->size < o->len || (mc_block_size(o->buff) && (spif_memidx_t) mc_block_size(o->buff) < o->size)) FAIL(site, "invariant:size", shape, "len=%ld size=%ld block=%zu", (long) o->len, (long) o->size, mc_block_size(o->buff));
     else if (he <= HE_EIO3 && (o->len > 9000 || memcmp(o->buff, pay, (size_t) o->len))) FAIL(site, "model:bytes", shape, "the bytes are not a prefix of what was delivered");
@@ -587,10 +595,27 @@ static void he_case(uint64_t idx, void *ctx)
     F(append_from_ptr)(o, (spif_byteptr_t) "q", 1);
     if (!o->buff || o->len != before + 1 || o->buff[before] != 'q' || o->size < o->len) FAIL(site, "model:followup-append", shape, "append after the failed read: len %ld -> %ld", (long) before, (long) o->len);
     F(del)(o);
-    if (fd >= 0) close(fd);
+    if (wfp) fclose(wfp); else if (fd >= 0) close(fd);
     free(pay);
     mc_nontrivial();
     mc_outcome(idx);
+}
+
+/* ---- a file whose size the system reports as 0 although it delivers bytes (procfs): the descriptor constructor reads what there is */
+static void pf_desc(uint64_t idx, void *ctx, char *b, size_t n) { (void) ctx; (void) idx; snprintf(b, n, CLS " new_from_fd(/proc/version): the bytes a plain read() loop delivers"); }
+static void pf_case(uint64_t idx, void *ctx)
+{
+    (void) ctx; (void) idx; const char *shape = "file of reported size 0"; mc_set_shape(shape);
+    int fd = open("/proc/version", O_RDONLY); if (fd < 0) return;
+    unsigned char ref[4096]; ssize_t n = 0, k; while ((k = __real_read(fd, ref + n, sizeof ref - (size_t) n)) > 0) n += k;
+    close(fd);
+    if (n <= 0) return;
+    fd = open("/proc/version", O_RDONLY); if (fd < 0) return;
+    T o = F(new_from_fd)(fd);
+    if (!o) FAIL(CLS "_new_from_fd", "model:return", shape, "NULL for a file that delivers %ld bytes", (long) n);
+    else { if (o->len != (spif_memidx_t) n || !o->buff || memcmp(o->buff, ref, (size_t) n)) FAIL(CLS "_new_from_fd", "model:bytes", shape, "len=%ld, a read() loop delivers %ld bytes", (long) o->len, (long) n); F(del)(o); }
+    close(fd);
+    mc_nontrivial();
 }
 
 /* ------------------------------------------------------------------ positions and counts at the far ends of the 64-bit index type */
@@ -740,7 +765,7 @@ int main(int argc, char **argv)
         mc_e2_level(CLS "_stream_ctor", g_k * 10 + g_dev, (uint64_t) NSRC * NLENS, sc_case, sc_desc, NULL);
     if (!mc_arg("only", NULL)) mc_e2_level(CLS "_extreme_index", 64, (uint64_t) NEXT * NEXT, ex_case, ex_desc, NULL);
     if (!mc_arg("only", NULL)) mc_e2_level(CLS "_long_buffer", 65537, (uint64_t) NLT * NLO, lt_case, lt_desc, NULL);
-    if (!mc_arg("only", NULL)) { mc_e2_level(CLS "_stream_history", 1, 30, sh_case, sh_desc, NULL); mc_e2_level(CLS "_fd_hard_error", 1, NHE, he_case, he_desc, NULL); }
-    if (!mc_arg("only", NULL)) { int maxn = (int) mc_arg_int("spmax", mc_thorough() ? 9000 : 700); mc_e2_level(CLS "_sprintf_len", maxn, (uint64_t) (maxn + 1) * 3, sp_case, sp_desc, NULL); }
+    if (!mc_arg("only", NULL)) { mc_e2_level(CLS "_stream_history", 1, 30, sh_case, sh_desc, NULL); mc_e2_level(CLS "_fd_hard_error", 1, NHE, he_case, he_desc, NULL); mc_e2_level(CLS "_procfs_file", 1, 1, pf_case, pf_desc, NULL); }
+    if (!mc_arg("only", NULL)) { int maxn = (int) mc_arg_int("spmax", mc_thorough() ? 9000 : 4200); mc_e2_level(CLS "_sprintf_len", maxn, (uint64_t) (maxn + 1) * 3, sp_case, sp_desc, NULL); }
     return mc_finish();
 }
